@@ -339,7 +339,9 @@ func genSetup(t *rapid.T) setup {
 		s.Subject = ""
 	}
 
-	s.Signer = rapid.SampledFrom([]string{"", "verif-issuer", "https://heimdall.example.com"}).Draw(t, "signer")
+	s.Signer = rapid.SampledFrom([]string{"", "verif-issuer", "https://heimdall.example.com",
+		// (the name is taken as it is configured: an issuer is a string compared character by character, RFC 7519, section 4.1.1)
+		" issuer with a leading blank", "issuer one ", "issuer\nfrom a block scalar\n", "ISSUER", "h\u00e9imdall"}).Draw(t, "signer")
 	s.TTL = rapid.SampledFrom([]string{"", "2s", "7s", "90s", "15m", "2500ms"}).Draw(t, "ttl")
 	s.OverTTL = rapid.SampledFrom([]string{"", "", "3s", "1h"}).Draw(t, "overTTL")
 	s.Cache = rapid.Bool().Draw(t, "tokenCache")
